@@ -260,3 +260,72 @@ Print Assumptions positions_are_those_of_the_text_in_front.
 Theorem inserted_text_moves_positions_by_itself p ins before : pos_adv p (ins ++ before) = pos_adv (pos_adv p ins) before.
 Proof. exact (pos_adv_app p ins before). Qed.
 Print Assumptions inserted_text_moves_positions_by_itself.
+
+(* ---- any number of layout changes at once ---- *)
+(* one change: a layout character or a comment put in front of the text or directly after a token *)
+Inductive layout_step : list N -> list N -> Prop :=
+| ls_char_front b w s : In (b, w) layout_chars -> layout_step s (b :: s)
+| ls_char_after b w s s' : In (b, w) layout_chars -> after_token (Dfa.step go_dfa) go_cls b s s' -> layout_step s s'
+| ls_block_front v s : is_block_comment v -> layout_step s (v ++ s)
+| ls_line_front v s : is_line_comment v -> (s = [] \/ exists c s1, s = c :: s1 /\ (c = 10 \/ c = 13)%N) -> layout_step s (v ++ s)
+| ls_comment_after v f s s' :
+    (is_block_comment v /\ f = block_end) \/ (is_line_comment v /\ f = line_state) ->
+    after_token_s (Dfa.step go_dfa) go_cls v f s s' -> layout_step s s'.
+
+(* two texts have the same layout-free content when one is reached from the other by any number of such changes, made or undone,
+   in any order and at any places *)
+Inductive same_modulo_layout : list N -> list N -> Prop :=
+| sml_refl s : same_modulo_layout s s
+| sml_add s s' : layout_step s s' -> same_modulo_layout s s'
+| sml_remove s s' : layout_step s s' -> same_modulo_layout s' s
+| sml_trans s1 s2 s3 : same_modulo_layout s1 s2 -> same_modulo_layout s2 s3 -> same_modulo_layout s1 s3.
+
+Lemma layout_step_same_tokens s s' : layout_step s s' ->
+  kinds_and_lexemes (fst (tokens (Dfa.step go_dfa) go_cls s')) = kinds_and_lexemes (fst (tokens (Dfa.step go_dfa) go_cls s)) /\
+  ekind (snd (tokens (Dfa.step go_dfa) go_cls s')) = ekind (snd (tokens (Dfa.step go_dfa) go_cls s)).
+Proof.
+  intros H. destruct H as [b w s Hin|b w s s' Hin Ha|v s Hv|v s Hv Hs|v f s s' Hv Ha].
+  - exact (layout_character_in_front b w s Hin).
+  - exact (layout_character_after_a_token b w s s' Hin Ha).
+  - exact (block_comment_in_front v s Hv).
+  - exact (line_comment_in_front v s Hv Hs).
+  - exact (comment_after_a_token v f s s' Hv Ha).
+Qed.
+
+Theorem any_layout_changes_leave_the_tokens s s' : same_modulo_layout s s' ->
+  kinds_and_lexemes (fst (tokens (Dfa.step go_dfa) go_cls s')) = kinds_and_lexemes (fst (tokens (Dfa.step go_dfa) go_cls s)) /\
+  ekind (snd (tokens (Dfa.step go_dfa) go_cls s')) = ekind (snd (tokens (Dfa.step go_dfa) go_cls s)).
+Proof.
+  induction 1 as [s|s s' H|s s' H|s1 s2 s3 _ IH1 _ IH2].
+  - split; reflexivity.
+  - exact (layout_step_same_tokens s s' H).
+  - destruct (layout_step_same_tokens s s' H) as [P E]. split; symmetry; assumption.
+  - destruct IH1 as [P1 E1], IH2 as [P2 E2]. split; [rewrite P2; exact P1 | rewrite E2; exact E1].
+Qed.
+Print Assumptions any_layout_changes_leave_the_tokens.
+
+(* ... hence the same specification: whatever blanks, line ends and comments are added or removed, wherever, the derived
+   declarations (grammar, definitions, precedences, verdict) are the same *)
+Theorem any_layout_changes_leave_the_result t1 t2 :
+  same_modulo_layout (t1 ++ [10%N]) (t2 ++ [10%N]) -> snd (scan t1) = EndEOF -> front t2 = front t1.
+Proof.
+  intros H He. destruct (any_layout_changes_leave_the_tokens _ _ H) as [P E].
+  apply front_depends_only_on_tokens; [exact P|]. unfold scan in *. rewrite He in E.
+  destruct (snd (tokens (Dfa.step go_dfa) go_cls (t2 ++ [10%N]))); try discriminate E. rewrite He. reflexivity.
+Qed.
+Print Assumptions any_layout_changes_leave_the_result.
+
+(* non-vacuity: " \n/* c */grammar g;" and "\tgrammar g;" are the same modulo layout: three additions and, from the other side,
+   one (a removal seen from the first text) *)
+Example several_changes_example :
+  let g := [103;114;97;109;109;97;114;32;103;59;10]%N in
+  same_modulo_layout ([32; 10] ++ [47;42;32;99;32;42;47] ++ g)%N (9 :: g)%N.
+Proof.
+  intros g. apply (sml_trans _ g).
+  - apply (sml_trans _ ([47;42;32;99;32;42;47] ++ g)%N).
+    + apply (sml_trans _ (10 :: [47;42;32;99;32;42;47] ++ g)%N).
+      * apply sml_remove. apply (ls_char_front 32 1)%N. left. reflexivity.
+      * apply sml_remove. apply (ls_char_front 10 2)%N. right. right. left. reflexivity.
+    + apply sml_remove. apply ls_block_front. unfold is_block_comment. vm_compute. reflexivity.
+  - apply sml_add. apply (ls_char_front 9 1)%N. right. left. reflexivity.
+Qed.
